@@ -137,7 +137,8 @@ def build_world(tape, tier):
         W.add("combine", dict(cd), "initial", f"combine{i}")
     W.add("cnr", objs["cnr_clean"], "initial", "cnr_clean")
     for name, kind in (("ref_nomask", "ref"), ("ref_alt", "ref"), ("tcov_b", "tcov"), ("acov_b", "acov"),
-                       ("cnr_mirror", "cnr"), ("cnr_chr1", "cnr")):
+                       ("cnr_mirror", "cnr"), ("cnr_chr1", "cnr"), ("varr_empty", "varr"),
+                       ("baits_chr1", "baits")):
         W.add(kind, objs[name], "initial", name)
     if tape.chance(1, 2, "w.arms_table"):
         # a ratio table with a planted centromere, equal-sized arms and a second arm-sized gap in
@@ -1067,7 +1068,8 @@ def prepopulate(root, name, pattern, rng_bytes=b"old"):
 
 
 def _choose_write(W, tape, writes):
-    e = W.pick(tape, "cnr", "cns", "targets", "antitargets", "tcov", label="wr.arg")
+    e = W.pick(tape, "cnr", "cns", "targets", "antitargets", "tcov", "access", "baits", "ref", "varr",
+               label="wr.arg")
     if e is None:
         return None
     prev = sorted(writes.paths)
@@ -1084,7 +1086,8 @@ def _choose_write(W, tape, writes):
         ents = [W.pick(tape, "tcov", label="wr.tcov"), W.pick(tape, "acov", label="wr.acov")]
     fmt = "tab" if via_cli else tape.weighted(
         [("tab", 5), ("bed", 1), ("bed3", 1), ("bed4", 1), ("interval", 1), ("text", 1), ("seg", 1)], "wr.fmt")
-    return ents, {"name": name, "prepop": prepop, "cli": via_cli, "fmt": fmt, "times": tape.weighted(
+    return ents, {"name": name, "prepop": prepop, "cli": via_cli, "fmt": fmt,
+                  "sweep": tape.chance(1, 2, "wr.sweep"), "times": tape.weighted(
         [(1, 3), (2, 2), (3, 2), (5, 1)], "wr.times")}
 
 
@@ -1179,6 +1182,27 @@ def _do_write_step(W, ents, params, writes, ctx, simfs, D):
         ctx.probe("write.suffix_gt_1")
     if suffixes and suffixes != list(range(1, len(suffixes) + 1)):
         ctx.probe("write.suffix_gap")
+    if not argv and params.get("sweep"):
+        # format sweep: the written object and a table without a gene column, in every writer
+        # format, twice each -- same bytes both times; A1 (checked by the caller) sees any change
+        # made to the objects themselves
+        sweep_dir = os.path.join(os.path.dirname(root), "sweep")
+        os.makedirs(sweep_dir, exist_ok=True)
+        plain = [e.obj for e in W.entries if e.name == "access"]
+        for k, obj in enumerate([ents[0].obj] + plain):
+            for fmt in ("tab", "bed", "bed3", "bed4", "interval", "text", "seg"):
+                sp = os.path.join(sweep_dir, f"obj{k}.{fmt}")
+                try:
+                    tabio.write(obj, sp, fmt)
+                    first_bytes = open(sp, "rb").read()
+                    tabio.write(obj, sp, fmt)
+                except Exception:  # noqa: BLE001  (a format that does not apply to this table)
+                    ctx.probe("write.sweep_format_not_applicable")
+                    continue
+                if open(sp, "rb").read() != first_bytes:
+                    raise Violation("W1", f"C10/W1/rewrite/{fmt}",
+                                    f"writing the same object twice as {fmt} produced different bytes")
+        ctx.probe("write.format_sweep")
     if argv or params.get("fmt", "tab") != "tab":
         return
     # the written table reads back as the object's table
